@@ -4,7 +4,7 @@ Copies a confirmed seeded change from /tmp/seed/out/<ID>/<X> to /verif/seeded/<I
 import sys, os, json, shutil, re
 pid, x, needs, detected = sys.argv[1:5]
 note = sys.argv[5] if len(sys.argv) > 5 else ""
-src = f"/tmp/seed/out/{pid}/{x}"
+src = os.environ.get("SEED_SRC", "/tmp/seed/out") + f"/{pid}/{x}"
 dst = f"/verif/seeded/{pid}-{x}"
 os.makedirs(dst, exist_ok=True)
 for f in os.listdir(src):
